@@ -343,6 +343,12 @@ func (p *player) Bet(chips int64) error {
 	p.state.DidAction = "bet"
 	p.state.Acted = true
 
+	// A bet above the stack is an all-in for what the player has left: that
+	// is the size of the bet (and the minimum raise for the next player)
+	if chips > p.state.StackSize {
+		chips = p.state.StackSize
+	}
+
 	p.pay(chips, true)
 
 	p.game.GetState().Status.PreviousRaiseSize = chips
